@@ -599,3 +599,29 @@ Qed.
 Lemma pair_eventual_refuted : exists src local fs,
   prefix local src /\ pair_run src local fs = ([1]%N, DFailedCancelled, 1%nat) /\ src <> [1]%N.
 Proof. exists [1;2]%N, [], [(CutEof 1, [])]. split; [apply prefix_nil|]. split; [reflexivity|discriminate]. Qed.
+
+(* ---- failure notification / one negotiation at a time --------------------------------------------- *)
+
+Lemma upload_terminal_msg : forall src fsz off grant cut msg_ok,
+  u_terminal (u_state (upload_session_msg src fsz off grant cut true msg_ok)).
+Proof.
+  intros. unfold upload_session_msg, ul_fail_before_notify. rewrite andb_false_r. apply upload_terminal.
+Qed.
+
+Lemma upload_msg_irrelevant : forall src fsz off grant cut pc msg_ok,
+  upload_session_msg src fsz off grant cut pc msg_ok = upload_session src fsz off grant cut pc.
+Proof. intros. unfold upload_session_msg, ul_fail_before_notify. now rewrite andb_false_r. Qed.
+
+Lemma no_second_negotiation : second_request_starts_task true = false.
+Proof. reflexivity. Qed.
+
+(* why: two writers leave a file that is longer than the remote file, hence not a prefix of it *)
+Lemma two_writers_corrupt : forall src local k,
+  prefix local src -> len local < len src -> ~ prefix (two_writers src local k) src.
+Proof.
+  intros src local k H Hlt Hp. apply prefix_len in Hp. unfold two_writers in Hp.
+  pose proof (rest_len _ _ H) as Hr. set (rest := dropN (Z.to_N (len local)) src) in *.
+  rewrite !len_app in Hp. pose proof (take_drop k rest) as E.
+  assert (len (takeN k rest) + len (dropN k rest) = len rest) by (rewrite <- len_app; now rewrite E).
+  lia.
+Qed.
